@@ -24,7 +24,8 @@ RULE = ("port expressions: 5 operators x operands from boundaries {1,2,65534,655
         "evaluations; distinct non-trivial = (operator, #operands, boundary class, history shape)"
         " Round 4: repeated operands / list values (set-only judgement); sport read before ports on every second monitor evaluation."
         " Round 5: expressions built without a protocol; sibling expressions (same operator, count, lowest, highest operand)."
-        " Rounds 6-7: repeated operands in neq lists.")
+        " Rounds 6-7: repeated operands in neq lists."
+        " Round 9: operands 1023/1024/49151/49152; neq lists holding both boundaries with sport write-back.")
 ASSUMPTIONS = ["eq/neq operand lists are distinct for the text clauses; with repeated operands ('eq 5 5 7') only the denoted set is judged",
                "operands outside 1..65535 are outside the quantifier"]
 
